@@ -28,7 +28,7 @@ NO_RAISE_CALLS = {"list", "len", "range", "zip", "isinstance", "enumerate", "set
 
 class Spec:
     def __init__(self, func, locs, snapshot_exprs=(), snapshot_calls=(), restore_assign=(), restore_calls=(), mutate_calls=(),
-                 cm_calls=(), pure_calls=(), is_contextmanager=False, note="", restore_stmts=(), mutate_assign=()):
+                 cm_calls=(), pure_calls=(), is_contextmanager=False, note="", restore_stmts=(), mutate_assign=(), snapshot_patterns=()):
         """
         func            "module:qualname"
         locs            names of abstract locations, e.g. ["chains_idx", "params"]
@@ -53,6 +53,12 @@ class Spec:
         self.note = note
         self.restore_stmts = list(restore_stmts)  # [(statement source text, loc, snapshot variable)]
         self.mutate_assign = list(mutate_assign)  # [(target text, loc)] assignment that modifies loc whatever the value
+        # structural snapshot / restore idioms, matched on the AST shape (local variable names are free):
+        #   ("getter_over_keys", loc, {"container": <parameter name>, "getter": "*.get", "kw": {"val_in_fit": "False"}})
+        #        d = {k: getter(k, **kw) for k in container[.keys()|.items()]}   or   d = {} ; for k in ...: d[k] = getter(k, **kw)
+        #   ("attr_list", loc, {"attr": "mask_factor"})
+        #        xs = [getattr(o, attr, default) | o.attr  for o in C]        snapshot;   for o, v in zip(C, xs): o.attr = v    restore
+        self.snapshot_patterns = list(snapshot_patterns)
 
 
 class Unsupported(Exception):
@@ -79,6 +85,45 @@ def load_function(repo, func):
             raise KeyError("%s not found in %s" % (qual, path))
         node = found
     return node, path
+
+
+def _iter_over_container(it, container):
+    """does `it` iterate over the keys of the mapping named `container`?  container | container.keys() | list(container) | container.items()
+    -> "keys" / "items" / None"""
+    t = _src(it)
+    if t in (container, container + ".keys()", "list(%s)" % container, "list(%s.keys())" % container, "sorted(%s)" % container):
+        return "keys"
+    if t in (container + ".items()", "list(%s.items())" % container):
+        return "items"
+    return None
+
+
+def _loop_key_name(target, mode):
+    if mode == "keys" and isinstance(target, ast.Name):
+        return target.id
+    if mode == "items" and isinstance(target, ast.Tuple) and len(target.elts) == 2 and isinstance(target.elts[0], ast.Name):
+        return target.elts[0].id
+    return None
+
+
+def _is_getter_of(call, key, opts, match):
+    """call == getter(key, **required keywords)"""
+    if not isinstance(call, ast.Call) or not match([(opts["getter"],)], _src(call.func)):
+        return False
+    if len(call.args) != 1 or not (isinstance(call.args[0], ast.Name) and call.args[0].id == key):
+        return False
+    kws = {k.arg: _src(k.value) for k in call.keywords}
+    return all(kws.get(k) == v for k, v in opts.get("kw", {}).items())
+
+
+def _reads_attr(node, var, attr):
+    """node == var.attr   or   getattr(var, 'attr'[, default])"""
+    if isinstance(node, ast.Attribute) and node.attr == attr and isinstance(node.value, ast.Name) and node.value.id == var:
+        return True
+    if isinstance(node, ast.Call) and isinstance(node.func, ast.Name) and node.func.id == "getattr" and len(node.args) >= 2:
+        a0, a1 = node.args[0], node.args[1]
+        return isinstance(a0, ast.Name) and a0.id == var and isinstance(a1, ast.Constant) and a1.value == attr
+    return False
 
 
 class State:
@@ -113,6 +158,8 @@ class Analyzer:
         self.fnode = fnode
         self.exits = []  # (kind, label, State)
         self.call_count = {}
+        self.empty_dicts = {}
+        self.snap_container = {}
         self.is_cm = spec.is_contextmanager or any(
             (isinstance(d, ast.Attribute) and d.attr == "contextmanager") or (isinstance(d, ast.Name) and d.id == "contextmanager")
             for d in fnode.decorator_list)
@@ -122,9 +169,16 @@ class Analyzer:
         return _src(call.func)
 
     def _match(self, table, text):
+        """exact source text, or - for entries written `*.name` - any receiver: `name`, `x.name`, `a.b.name` (the contract is about the
+        METHOD / ATTRIBUTE of the library's API, not about the name of the local variable that holds the object)"""
         for entry in table:
-            if entry[0] == text:
+            pat = entry[0]
+            if pat == text:
                 return entry
+            if pat.startswith("*."):
+                tail = pat[2:]
+                if text == tail or text.endswith("." + tail):
+                    return entry
         return None
 
     def _label(self, call):
@@ -194,6 +248,56 @@ class Analyzer:
             state = self._apply_call(c, state, on_raise, tgt)
         return state
 
+    # ---- structural idioms (Spec.snapshot_patterns)
+    def _pattern_snapshot(self, value, state, tname):
+        """value of an assignment that IS a snapshot by shape; also remembers empty dict literals as candidates for the loop idiom"""
+        for kind, loc, opts in self.spec.snapshot_patterns:
+            if kind == "getter_over_keys":
+                if isinstance(value, ast.DictComp) and len(value.generators) == 1 and not value.generators[0].ifs:
+                    gen = value.generators[0]
+                    mode = _iter_over_container(gen.iter, opts["container"])
+                    key = _loop_key_name(gen.target, mode) if mode else None
+                    if key and isinstance(value.key, ast.Name) and value.key.id == key and _is_getter_of(value.value, key, opts, self._match) \
+                            and state.loc[loc] == ORIG:
+                        return loc
+                if tname and ((isinstance(value, ast.Dict) and not value.keys) or (isinstance(value, ast.Call) and _src(value) == "dict()")):
+                    self.empty_dicts[tname] = True
+            if kind == "attr_list":
+                if isinstance(value, ast.ListComp) and len(value.generators) == 1 and not value.generators[0].ifs:
+                    gen = value.generators[0]
+                    if isinstance(gen.target, ast.Name) and _reads_attr(value.elt, gen.target.id, opts["attr"]) and state.loc[loc] == ORIG:
+                        if tname:
+                            self.snap_container[tname] = _src(gen.iter)
+                        return loc
+        return None
+
+    def _pattern_loop(self, st, state, on_raise):
+        """a `for` statement that as a whole is a snapshot-filling loop or a restore loop; returns the fall-through states or None"""
+        if st.orelse or len(st.body) != 1 or not isinstance(st.body[0], ast.Assign) or len(st.body[0].targets) != 1:
+            return None
+        asg = st.body[0]
+        tgt = asg.targets[0]
+        for kind, loc, opts in self.spec.snapshot_patterns:
+            if kind == "getter_over_keys" and isinstance(tgt, ast.Subscript) and isinstance(tgt.value, ast.Name) and tgt.value.id in self.empty_dicts:
+                mode = _iter_over_container(st.iter, opts["container"])
+                key = _loop_key_name(st.target, mode) if mode else None
+                if key and isinstance(tgt.slice, ast.Name) and tgt.slice.id == key and _is_getter_of(asg.value, key, opts, self._match):
+                    on_raise(state.copy(), "exception@" + _src(asg.value.func))
+                    if state.loc[loc] == ORIG:
+                        state.env[tgt.value.id] = loc
+                    self.empty_dicts.pop(tgt.value.id, None)
+                    return [state]
+            if kind == "attr_list" and isinstance(st.iter, ast.Call) and _src(st.iter.func) == "zip" and len(st.iter.args) == 2 \
+                    and isinstance(st.target, ast.Tuple) and len(st.target.elts) == 2 and all(isinstance(e, ast.Name) for e in st.target.elts):
+                cont, snap = st.iter.args
+                o, v = (e.id for e in st.target.elts)
+                if isinstance(snap, ast.Name) and isinstance(tgt, ast.Attribute) and tgt.attr == opts["attr"] and isinstance(tgt.value, ast.Name) \
+                        and tgt.value.id == o and isinstance(asg.value, ast.Name) and asg.value.id == v:
+                    same_container = self.snap_container.get(snap.id) == _src(cont)
+                    state.loc[loc] = ORIG if (state.env.get(snap.id) == loc and same_container) else MOD
+                    return [state]
+        return None
+
     # ---- statements: returns list of fall-through states
     def run_block(self, stmts, states, on_raise, on_return, in_loop=None):
         for st in stmts:
@@ -246,6 +350,8 @@ class Analyzer:
                     snap_loc = m[1]
                 elif isinstance(value, ast.Name) and value.id in state.env:
                     snap_loc = state.env[value.id]
+                else:
+                    snap_loc = self._pattern_snapshot(value, state, tname)
             state = self._eval_expr(value, state, on_raise, assign_target=tname)
             for t in targets:
                 tt = _src(t)
@@ -285,6 +391,10 @@ class Analyzer:
             a = self.run_block(st.body, [state.copy()], on_raise, on_return, in_loop)
             b = self.run_block(st.orelse, [state.copy()], on_raise, on_return, in_loop)
             return self._dedup(a + b)
+        if isinstance(st, ast.For):
+            done = self._pattern_loop(st, state, on_raise)
+            if done is not None:
+                return done
         if isinstance(st, (ast.For, ast.While)):
             head = st.iter if isinstance(st, ast.For) else st.test
             state = self._eval_expr(head, state, on_raise)
@@ -472,8 +582,20 @@ def obligations(repo, spec):
                     detail="" if not bad else "a normal exit leaves %s modified" % sorted({k for s in bad for k, v in s.loc.items() if v != ORIG})))
     # group exceptional edges by label (callee) -- one obligation per raising site kind
     bylabel = {}
+    tables = spec.restore_calls + spec.mutate_calls + spec.cm_calls + [(c[0].split("(")[0],) for c in spec.snapshot_calls] \
+        + [(o["getter"],) for k_, l_, o in spec.snapshot_patterns if "getter" in o]
     for label, s in exceptional:
-        bylabel.setdefault(label, []).append(s)
+        core = label.replace("exception@", "").replace(".__enter__", "")
+        m = an._match(tables, core)
+        if label in ("raise", "exception@yield", "exception@yield from"):
+            key = label
+        elif m is not None:
+            # named after the API method of the contract table (receiver-independent)
+            key = "exception@" + (m[0][2:] if m[0].startswith("*.") else m[0]) + (".__enter__" if label.endswith(".__enter__") else "")
+        else:
+            key = "exception@other_calls"  # calls that are not part of any contract table: one obligation, stable under incidental edits
+        bylabel.setdefault(key, []).append(s)
+    bylabel.setdefault("exception@other_calls", [])  # always present (holds vacuously when there is no such call): stable obligation set
     for label, sts in sorted(bylabel.items()):
         badl = [s for s in sts if any(v != ORIG for v in s.loc.values())]
         out.append(dict(name=label, ok=not badl,
